@@ -30,10 +30,21 @@ def run(ctx):
     ctx.model_check("MC_Messages", ctx.pick("MC_Messages.cfg", "MC_Messages_thorough.cfg"), workers=6)
     ctx.build_harness()
     parts = min(vlib.NCPU, 16)
-    n1, f1, cases1 = ctx.record_and_validate("wire", "Trace_Codec", describe=describe, key=key, cfg="Trace_Robust.cfg",
-                                              extra=["-arg", "measure"], parts=parts)
-    n2, f2, cases2 = ctx.record_and_validate("robust", "Trace_Codec", describe=describe, key=key, cfg="Trace_Robust.cfg",
-                                              parts=parts)
+    try:
+        n1, f1, cases1 = ctx.record_and_validate("wire", "Trace_Codec", describe=describe, key=key, cfg="Trace_Robust.cfg",
+                                                  extra=["-arg", "measure"], parts=parts)
+        n2, f2, cases2 = ctx.record_and_validate("robust", "Trace_Codec", describe=describe, key=key, cfg="Trace_Robust.cfg",
+                                                  parts=parts)
+    except vlib.LibPanic as e:
+        # the driver itself died: a protocol step panicked outside the per-call recover, i.e. while the driver was
+        # producing honest messages (requests, responses, tokens) with the library. That is a panic on peer bytes.
+        ctx.violation("a protocol step panicked inside the library while the driver was building its honest messages: %s\n%s"
+                      % (e.frame, e.stack[:1200]),
+                      {"libpanic": True, "family": "wire", "harness_args": [a for a in e.harness_args], "frame": e.frame,
+                       "stack": e.stack}, key="libpanic " + e.frame)
+        return ctx.finish({"traces_validated_against_impl": 0, "evaluations": 0, "distinct_nontrivial": 0,
+                           "rule": "driver died from a library panic before any trace was recorded", "exhaustive": False},
+                          ["no trace recorded: the library panicked while the driver was building honest messages"])
     cases = cases1 + cases2
     kinds = {}
     for c in cases:
